@@ -32,6 +32,7 @@ THEOREMS = [
     "Optyx.Props.C13.solve_bounds_current",
     "Optyx.Props.C13.f12_breaks_solve_eq_fresh",
     "Optyx.Props.C13.half_applied_subject_to_breaks_inv",
+    "Optyx.Props.Glue.lpGlue_text",
 ]
 ASSUMPTIONS = [
     "expressions are abstract in the Lean machine: what a cache holds is a function of the model it was computed from "
